@@ -15,6 +15,31 @@ sys.path.insert(0, os.path.dirname(os.path.abspath(__file__)))
 from o2pv import common  # noqa: E402
 
 
+def run_corpus(ctx: "common.Ctx", mod: object, prop: str) -> None:
+    """past failures first: every file under /verif/corpus/<Cxx>/ is an input on which a seeded change once made the
+    property fail (and on which the unchanged tree passes); each is replayed before the generators run"""
+    import contextlib
+    import io
+    d = os.path.join(os.path.dirname(os.path.dirname(os.path.abspath(__file__))), "corpus", prop)
+    if not os.path.isdir(d):
+        return
+    for fn in sorted(os.listdir(d)):
+        if not fn.endswith(".json"):
+            continue
+        data = json.load(open(os.path.join(d, fn)))
+        buf = io.StringIO()
+        try:
+            with contextlib.redirect_stdout(buf):
+                rc = mod.replay(data)  # type: ignore[attr-defined]
+        except Exception as ex:  # noqa: BLE001
+            rc, buf = 1, io.StringIO(f"{type(ex).__name__}: {ex}")
+        ctx.tick("corpus_inputs_replayed")
+        if rc != 0:
+            ctx.violation(f"a past failure fails again: corpus input {fn} ({data.get('what', '')[:160]})",
+                          {"input": data.get("input"), "corpus_file": fn, "replay_output": buf.getvalue()[-1500:]},
+                          key=("corpusfile", fn))
+
+
 def main() -> int:
     ap = argparse.ArgumentParser()
     ap.add_argument("prop")
@@ -28,6 +53,7 @@ def main() -> int:
         return mod.replay(json.load(open(args.replay)))
     ctx = common.Ctx(args.prop, args.tier, seed, mod.LEVEL)
     try:
+        run_corpus(ctx, mod, args.prop)
         mod.run(ctx)
     except Exception:
         traceback.print_exc()
